@@ -312,3 +312,21 @@ V("c14-search-upper-len", "C14", CE, "    upper_bound = len(_table) - 1", "    u
 V("c10-liverender-store-unpadded", "C10", LR, "        width, height = self._shape\n        lines = _Segment.set_shape(lines, width, height)", "        width, height = self._shape\n        self._shape = (width, shape[1])\n        lines = _Segment.set_shape(lines, width, height)", "R10.2")
 # ---- C20 additions -------------------------------------------------------------
 V("c20-push-cached-merge", "C20", TH, "        self._entries.append(styles)\n        self.get = self._entries[-1].get", "        self._entries.append(self._entries[-1] if not theme.styles else styles)\n        self.get = self._entries[-1].get", "R20.2")
+
+# ---- later additions -------------------------------------------------------------
+V("c08-align-center-right-pad", "C08", "rich/align.py", 'Segment(" " * (excess_space - left), style) if self.pad else None', 'Segment(" " * excess_space, style) if self.pad else None', "R8.8")
+V("c08-align-right-short", "C08", "rich/align.py", '                pad = Segment(" " * excess_space, style)\n                for line in lines:\n                    yield pad\n                    yield from line', '                pad = Segment(" " * (excess_space - 1), style)\n                for line in lines:\n                    yield pad\n                    yield from line', "R8.8")
+V("c08-bar-half-left-extra", "C08", "rich/progress_bar.py", "                    yield _Segment(half_bar_left, style)\n                    remaining_bars -= 1", "                    yield _Segment(half_bar_left, style)", "R8.9")
+V("c08-bar-uncapped", "C08", "rich/progress_bar.py", "        width = min(self.width or options.max_width, options.max_width)\n        ascii =", "        width = self.width or options.max_width\n        ascii =", "R8.9")
+V("c08-pulse-plus-one", "C08", "rich/progress_bar.py", "pulse_segments * (int(width / segment_count) + 2)", "pulse_segments * (int(width / segment_count) + 1)", "R8.9")
+V("c08-panel-title-no-copy", "C08", "rich/panel.py", "                else self.title.copy()", "                else self.title", "R8.7")
+V("c08-benign-align-temp", "C08", "rich/align.py", "                left = excess_space // 2\n", "                left = excess_space // 2\n                _half = left\n", None)
+V("c04-normalize-no-strip", "C04", S, "            return style.strip().lower()", "            return style.lower()", "R4.5")
+V("c04-add-mask-attributes", "C04", S, "(self._attributes & ~style._set_attributes)", "(self._attributes & ~style._attributes)", "R4.6")
+V("c07-row-height-no-floor", "C07", TB, "            max_height = 1\n", "            max_height = 0\n", "R7.5")
+V("c05-copy-shares-spans", "C05", TX, "        copy_self._spans[:] = self._spans\n        return copy_self", "        copy_self._spans = self._spans\n        return copy_self", "R5.7")
+V("c05-tabs-count-plain-parts", "C05", TX, "                else:\n                    append(part)\n        self._text = [result.plain]", "                else:\n                    append(part)\n                    pos += len(part)\n        self._text = [result.plain]", "R5.6")
+V("c11-start-check-outside-lock", "C11", LV, "        with self._lock:\n            if self._started:\n                return\n\n            self.console.show_cursor(False)", "        if self._started:\n            return\n        with self._lock:\n            self.console.show_cursor(False)", "R11.7")
+V("c09-align-no-constrain", "C09", "rich/align.py", "        rendered = console.render(\n            Constrain(\n                self.renderable, width if self.width is None else min(width, self.width)\n            ),\n            options,\n        )", "        rendered = console.render(self.renderable, options.update(width=width))", "R9.5")
+V("c09-get-falsy-zero", "C09", ME, "        _max_width = console.width if max_width is None else max_width", "        _max_width = max_width or console.width", "R9.1")
+V("c06-add-mask-constant", "C06", S, "(self._attributes & ~style._set_attributes)", "(self._attributes & (style._set_attributes ^ 4095))", "R6.4")
